@@ -114,12 +114,15 @@ fn reference_stack(stack: usize) -> usize {
 /// `replace` calls when `with_replace_calls`).
 enum Driver<'a> {
     Alg(Algorithm),
+    /// algorithm with a deadline that the virtual clock lets expire at its k-th check
+    AlgDeadline(Algorithm, u64),
     Script(&'a [Ev]),
 }
 
 fn drive<D: DiffHook<Error = usize>>(d: &mut D, drv: &Driver, a: &[u8], b: &[u8]) -> Result<(), usize> {
     match drv {
         Driver::Alg(alg) => diff(*alg, d, a, 0..a.len(), b, 0..b.len()),
+        Driver::AlgDeadline(alg, _) => similar::algorithms::diff_deadline(*alg, d, a, 0..a.len(), b, 0..b.len(), Some(far_deadline())),
         Driver::Script(evs) => {
             for e in evs.iter() {
                 match *e {
@@ -168,6 +171,9 @@ fn execute(stack: usize, with_replace_override: bool, fail_at: Option<usize>, dr
         ..Default::default()
     }));
     let l2 = log.clone();
+    if let Driver::AlgDeadline(_, k) = drv {
+        similar::verif_hooks::set_clock(similar::verif_hooks::Clock::Fuel(*k));
+    }
     let r = guard(move || {
         if with_replace_override {
             run_stack(stack, &HookR(l2), drv, a, b)
@@ -175,6 +181,7 @@ fn execute(stack: usize, with_replace_override: bool, fail_at: Option<usize>, dr
             run_stack(stack, &HookD(l2), drv, a, b)
         }
     });
+    similar::verif_hooks::set_clock(similar::verif_hooks::Clock::Off);
     let log = log.borrow();
     r.map(|result| Outcome {
         result,
@@ -229,7 +236,7 @@ fn check_case(drv: &Driver, drv_name: &str, a: &[u8], b: &[u8], stacks: &[usize]
             }
             let fins = c.evs.iter().filter(|e| **e == Ev::Fin).count();
             let script_has_finish = match drv {
-                Driver::Alg(_) => true,
+                Driver::Alg(_) | Driver::AlgDeadline(..) => true,
                 Driver::Script(evs) => evs.last() == Some(&Ev::Fin),
             };
             if has_no_finish(stack) {
@@ -322,6 +329,57 @@ pub fn families() -> Vec<Box<dyn Family>> {
                         out.nontrivial(&(alg_name(alg), a, b));
                     }
                     check_case(&Driver::Alg(alg), alg_name(alg), a, b, &s1, out);
+                }
+            },
+        ),
+        family(
+            "alg_deadline_exh",
+            "two fault dimensions combined: every ordered pair over {0,1,2} with length <= 3 (quick) / <= 4 (thorough) x 3 algorithms x deadline expiring at check #0 / #1 / #2 (virtual clock) x 12 stacks x hook kinds x EVERY failing call index — reaches the deadline fallback branches with a failing hook",
+            true,
+            4,
+            |cfg| {
+                let n = gen::all_seqs(3, if cfg.tiny { 2 } else { cfg.tier.pick(3, 4) }).len() as u64;
+                n * n
+            },
+            {
+                let s = (0..STACKS.len()).collect::<Vec<usize>>();
+                move |idx, cfg, out| {
+                    let seqs = gen::all_seqs(3, if cfg.tiny { 2 } else { cfg.tier.pick(3, 4) });
+                    let (a, b) = gen::pair_of(seqs, idx);
+                    out.sample(|| format!("old={:?} new={:?} x 3 algorithms x expiry at check 0/1/2 x 12 stacks x every failing call index", a, b));
+                    for alg in ALGS {
+                        for k in [0u64, 1, 2] {
+                            if !a.is_empty() && !b.is_empty() && a != b {
+                                out.nontrivial(&(alg_name(alg), a, b, k));
+                            }
+                            let name = format!("{} with deadline expiring at check #{}", alg_name(alg), k);
+                            check_case(&Driver::AlgDeadline(alg, k), &name, a, b, &s, out);
+                        }
+                    }
+                }
+            },
+        ),
+        family(
+            "alg_deadline_rnd",
+            "seeded random pairs up to 40 items x one algorithm x deadline expiring at a random check x 12 stacks x every failing call index",
+            false,
+            4,
+            |cfg| cfg.n(1_000, 30_000),
+            {
+                let s = (0..STACKS.len()).collect::<Vec<usize>>();
+                move |idx, cfg, out| {
+                    let mut rng = Rng::for_case(cfg.seed, "c08.alg_deadline_rnd", idx);
+                    let (a, b) = gen::rand_pair(&mut rng, if cfg.tiny { 3 } else { 40 });
+                    let a: Vec<u8> = a.iter().map(|x| (*x % 251) as u8).collect();
+                    let b: Vec<u8> = b.iter().map(|x| (*x % 251) as u8).collect();
+                    let alg = ALGS[rng.below(3)];
+                    let k = rng.below(6) as u64;
+                    out.sample(|| format!("alg={} expiry at check #{} old={} new={}", alg_name(alg), k, fmt_seq(&a), fmt_seq(&b)));
+                    if a != b {
+                        out.nontrivial(&(alg_name(alg), &a, &b, k));
+                    }
+                    let name = format!("{} with deadline expiring at check #{}", alg_name(alg), k);
+                    check_case(&Driver::AlgDeadline(alg, k), &name, &a, &b, &s, out);
                 }
             },
         ),
